@@ -285,14 +285,12 @@ class ApplyROI(Command):
         for data in self.data_collection:
             for subset in data.subsets:
                 self.old_states[subset] = subset.subset_state
+        _store_subset_groups(self, session)
 
         self.apply_func(self.roi)
 
     def undo(self, session):
-        for data in self.data_collection:
-            for subset in data.subsets:
-                if subset not in self.old_states:
-                    subset.delete()
+        _restore_subset_groups(self, session)
 
         for k, v in self.old_states.items():
             k.subset_state = v
@@ -320,6 +318,7 @@ class ApplySubsetState(Command):
         for data in self.data_collection:
             for subset in data.subsets:
                 self.old_states[subset] = subset.subset_state
+        _store_subset_groups(self, session)
 
         mode = session.edit_subset_mode
         override_mode = self.extra.get('override_mode')
@@ -332,13 +331,32 @@ class ApplySubsetState(Command):
         mode.update(self.data_collection, self.subset_state, override_mode=override_mode)
 
     def undo(self, session):
-        for data in self.data_collection:
-            for subset in data.subsets:
-                if subset not in self.old_states:
-                    subset.delete()
+        _restore_subset_groups(self, session)
 
         for k, v in self.old_states.items():
             k.subset_state = v
+
+
+def _store_subset_groups(cmd, session):
+    # Remember the existing subset groups, their states and which ones are
+    # being edited, so that undo can restore them and remove the groups
+    # created by the command
+    cmd.old_group_states = dict((group, group.subset_state)
+                                for group in cmd.data_collection.subset_groups)
+    cmd.old_edit_subset = session.edit_subset_mode.edit_subset
+
+
+def _restore_subset_groups(cmd, session):
+    for group in cmd.data_collection.subset_groups:
+        if group in cmd.old_group_states:
+            group.subset_state = cmd.old_group_states[group]
+        else:
+            cmd.data_collection.remove_subset_group(group)
+    for data in cmd.data_collection:
+        for subset in data.subsets:
+            if subset not in cmd.old_states and getattr(subset, 'group', None) not in cmd.old_group_states:
+                subset.delete()
+    session.edit_subset_mode.edit_subset = cmd.old_edit_subset
 
 
 class LinkData(Command):
